@@ -47,7 +47,7 @@ func id(x int) int { return x }
 var c11IntTypes = []string{"int", "int8", "int16", "int32", "int64", "uint", "uint8", "uint16", "uint32", "uint64"}
 
 func c11IntVal(rt *rapid.T, ty, l string) string {
-	v := rapid.SampledFrom([]string{"0", "1", "2", "-1", "-2", "MIN", "MAX", "MAX-1", "MIN+1", "7", "63", "64", "65", "31", "32", "8", "100", "-100", "255", "256", "1000000"}).Draw(rt, l)
+	v := c11Pick(rt, []string{"0", "1", "2", "-1", "-2", "MIN", "MAX", "MAX-1", "MIN+1", "7", "63", "64", "65", "31", "32", "8", "100", "-100", "255", "256", "1000000"}, l)
 	bits := map[string]int{"int": 64, "int8": 8, "int16": 16, "int32": 32, "int64": 64, "uint": 64, "uint8": 8, "uint16": 16, "uint32": 32, "uint64": 64}[ty]
 	uns := strings.HasPrefix(ty, "u")
 	min, max := fmt.Sprintf("(-1 << %d)", bits-1), fmt.Sprintf("(1<<%d - 1)", bits-1)
@@ -98,18 +98,30 @@ var c11OpTemplates = []string{
 	"println(len(xs[j:i]))", "println(len(s[j:i]))", "println(xs[len(xs)])", "println(xs[-i])", "println(cap(xs[i:]) - len(xs))", "ys := xs[i:j]; ys = append(ys, 99); println(xs[j %% len(xs)])",
 	"var u8 uint8 = uint8(a); println(u8 + 200, u8 * u8, -u8)", "var i8 int8 = int8(a); println(i8 * i8, -i8, i8 / int8(b|1))", "x := a; x *= x; x *= x; x *= x; println(x)", "println(a*b/b == a)", "var d T; println(a / (d + b - b))", "println(i / j, i % j, k / (i - i))", "println(f / (g - g), int(f/(g-g)))",
 	"println(uint(i), uint32(j), int32(k << 31), uint16(i * j))", "println(string(rune(k)), string(rune(-1)), string(rune(0x10ffff+i)))", "println(strconv.Itoa(i), strconv.Quote(s))", "n, err2 := strconv.Atoi(s); println(n, err2)", "println(strings.Repeat(s, i))", "println(strings.Index(s, t), strings.Split(s, t), strings.Fields(s))",
+	// boundary-directed: the index is computed from the length at run time
+	"i = len(s); println(s[i])", "i = len(s) - 1; println(s[i])", "i = len(s) + 1; println(s[i])", "j = len(s) + 1; println(s[:j])", "j = len(s) + 1; println(s[1:j])", "i = len(s) + 1; println(s[i:])", "i, j = len(s), len(s); println(s[i:j])",
+	"i = len(bs); println(bs[i])", "i = len(bs) - 1; println(bs[i])", "i = len(bs); bs[i] = 1", "j = cap(bs) + 1; println(len(bs[:j]))", "i = len(bs) + 1; println(len(bs[i:]))", "i = len(bs); b2 := []byte(s); println(b2[len(b2)%(i+1)], b2[len(b2)])",
+	"i = len(xs); println(xs[i])", "i = len(xs) - 1; println(xs[i])", "i = len(xs); xs[i] = 1", "j = cap(xs) + 1; println(len(xs[:j]))", "i = len(xs) + 1; println(len(xs[i:]))", "i, j, k = 1, 2, cap(xs)+1; println(len(xs[i:j:k]))", "i, j, k = 1, 3, 2; println(len(xs[i:j:k]))",
+	"i = len(arr); println(arr[i])", "i = len(arr); arr[i] = 1", "j = len(arr) + 1; println(len(arr[:j]))", "pa := &arr; i = len(pa); println(pa[i])", "ys := xs[1:3]; i = len(ys); println(ys[i])", "ys := xs[1:3]; j = cap(ys) + 1; println(len(ys[:j]))", "ys := bs[1:3]; i = len(ys); println(ys[i])",
+	"rs := []rune(s); i = len(rs); println(rs[i])", "ss := []string{s, t}; i = len(ss); println(ss[i])", "i = len(s); println(string(s[i]))", "i = len(t) + len(s); println((s + t)[i])", "xs = xs[:0]; println(xs[0])", "bs = bs[:0]; println(bs[0])", "xs = xs[len(xs):]; println(len(xs), xs[0])",
+	"j = 0; println(i / j)", "j = 0; println(i % j)", "j = 0; i /= j", "j = 0; i %= j", "b = 0; println(a / b)", "b = 0; println(a % b)", "b = 0; a /= b", "b = 0; a %= b", "g = 0; println(f / g, int(f/g))", "var z8 int8; println(int8(a) / z8)", "var z64 uint64; println(uint64(a) % z64)",
+	"sh = -1; println(a << sh)", "sh = -1; println(a >> sh)", "sh = -1; a <<= sh", "sh = -1; a >>= sh", "sh = -1; println(1 << sh)", "u = 64; println(a << u, a >> u)", "u = 1 << 40; println(a << u, a >> u)",
+	// cyclic values reaching the renderers and the comparison / hashing code
+	"cy := []interface{}{nil}; cy[0] = cy; println(cy)", "cy := []interface{}{nil}; cy[0] = cy; panic(cy)", "cm := map[string]interface{}{}; cm[\"a\"] = cm; println(cm)", "cm := map[string]interface{}{}; cm[\"a\"] = cm; panic(cm)",
+	"cp := &S{}; cp.P = cp; println(cp, *cp)", "cp := &S{}; cp.P = cp; panic(cp)", "cp := &S{}; cp.P = cp; panic(*cp)", "var ce interface{}; ce = &ce; println(ce)", "var ce interface{}; ce = &ce; panic(ce)", "ca := [1]interface{}{}; ca[0] = &ca; println(ca); panic(ca)",
+	"type N struct{ v interface{} }; cn := &N{}; cn.v = cn; println(*cn == *cn); panic(*cn)", "type N struct{ v interface{} }; cn := &N{}; cn.v = cn; me := map[interface{}]int{}; me[*cn] = 1; println(len(me))", "cy := []interface{}{nil}; cy[0] = &cy; var e2 interface{} = cy[0]; println(e2 == e2)",
 	"println(s[i:j:k])", "println(it.(*S).A)", "println(it.(S).A)", "var n interface{}; println(n.(int))", "var n I; n.(*S).Set(1)", "f2 := it.Get; println(f2())", "f2 := pnil.Get; println(f2())", "f2 := S.Get; println(f2(S{A: i}))", "f2 := (*S).Set; f2(pnil, 1)", "f2 := I.Get; println(f2(it))", "var n I; f2 := n.Get; println(f2())",
 }
 
 func c11GenOps(rt *rapid.T) (string, []string) {
-	T := rapid.SampledFrom(c11IntTypes).Draw(rt, "T")
+	T := c11Pick(rt, c11IntTypes, "T")
 	var b strings.Builder
 	b.WriteString(c11OpsPrelude)
-	n := rapid.IntRange(1, 6).Draw(rt, "nops")
+	n := rapid.IntRange(4, 12).Draw(rt, "nops")
 	var ops []string
 	needStrconv, needStrings := false, false
 	for i := 0; i < n; i++ {
-		op := rapid.SampledFrom(c11OpTemplates).Draw(rt, fmt.Sprintf("op%d", i))
+		op := c11Pick(rt, c11OpTemplates, fmt.Sprintf("op%d", i))
 		op = strings.ReplaceAll(op, "%%", "%")
 		ops = append(ops, op)
 		needStrconv = needStrconv || strings.Contains(op, "strconv.")
@@ -130,21 +142,21 @@ func c11GenOps(rt *rapid.T) (string, []string) {
 	b.WriteString(src)
 	fmt.Fprintf(&b, "\ntype T = %s\n\nfunc main() {\n", T)
 	idx := func(l string) string {
-		return rapid.SampledFrom([]string{"0", "1", "2", "3", "4", "5", "-1", "1 << 40", "-1 << 63", "1<<63 - 1", "100"}).Draw(rt, l)
+		return c11Pick(rt, []string{"0", "1", "2", "3", "4", "5", "-1", "1 << 40", "-1 << 63", "1<<63 - 1", "100"}, l)
 	}
 	fmt.Fprintf(&b, "\tvar a, b T = %s, %s\n", c11IntVal(rt, T, "a"), c11IntVal(rt, T, "b"))
-	fmt.Fprintf(&b, "\tvar u uint = %s\n", rapid.SampledFrom([]string{"0", "1", "7", "8", "31", "32", "63", "64", "65", "1000", "1 << 40", "1<<64 - 1"}).Draw(rt, "u"))
-	fmt.Fprintf(&b, "\tvar sh int = %s\n", rapid.SampledFrom([]string{"0", "1", "63", "64", "-1", "-64", "1 << 40", "-1 << 63", "1<<63 - 1"}).Draw(rt, "sh"))
-	fmt.Fprintf(&b, "\tvar f, g float64 = %s, %s\n", rapid.SampledFrom(c11FloatVals).Draw(rt, "f"), rapid.SampledFrom(c11FloatVals).Draw(rt, "g"))
-	fmt.Fprintf(&b, "\tvar h float32 = %s\n", rapid.SampledFrom([]string{"0.0", "1.5", "3e38", "-3e38", "1e-45", "2.2e9", "300.0"}).Draw(rt, "h"))
-	fmt.Fprintf(&b, "\tvar s, t string = %s, %s\n", rapid.SampledFrom([]string{`""`, `"a"`, `"abc"`, `"héllo"`, `"\xff\xfe"`, `"12"`, `"-9223372036854775808"`}).Draw(rt, "s"), rapid.SampledFrom([]string{`""`, `"a"`, `"b"`, `"abc"`}).Draw(rt, "t"))
+	fmt.Fprintf(&b, "\tvar u uint = %s\n", c11Pick(rt, []string{"0", "1", "7", "8", "31", "32", "63", "64", "65", "1000", "1 << 40", "1<<64 - 1"}, "u"))
+	fmt.Fprintf(&b, "\tvar sh int = %s\n", c11Pick(rt, []string{"0", "1", "63", "64", "-1", "-64", "1 << 40", "-1 << 63", "1<<63 - 1"}, "sh"))
+	fmt.Fprintf(&b, "\tvar f, g float64 = %s, %s\n", c11Pick(rt, c11FloatVals, "f"), c11Pick(rt, c11FloatVals, "g"))
+	fmt.Fprintf(&b, "\tvar h float32 = %s\n", c11Pick(rt, []string{"0.0", "1.5", "3e38", "-3e38", "1e-45", "2.2e9", "300.0"}, "h"))
+	fmt.Fprintf(&b, "\tvar s, t string = %s, %s\n", c11Pick(rt, []string{`""`, `"a"`, `"abc"`, `"héllo"`, `"\xff\xfe"`, `"12"`, `"-9223372036854775808"`}, "s"), c11Pick(rt, []string{`""`, `"a"`, `"b"`, `"abc"`}, "t"))
 	fmt.Fprintf(&b, "\tvar i, j, k int = %s, %s, %s\n", idx("i"), idx("j"), idx("k"))
 	b.WriteString("\txs := []int{10, 20, 30, 40}\n\tbs := []byte(\"bytes\")\n\tarr := [4]int{1, 2, 3, 4}\n\tm := map[string]int{\"a\": 1, \"b\": 2}\n\tvar mnil map[string]int\n")
 	b.WriteString("\tp := &S{A: 1, B: \"b\", F: id, M: map[string]int{}, X: []int{1}}\n\tvar pnil *S\n")
-	fmt.Fprintf(&b, "\tvar e interface{} = %s\n", rapid.SampledFrom([]string{"nil", "1", `"s"`, "1.5", "S{A: 2}", "&S{A: 3}", "[]int{1}", "map[string]int{}", "id", "E{1}", "[2]int{1, 2}", "struct{}{}", "int8(3)", "pnil", "[1]interface{}{[]int{1}}"}).Draw(rt, "e"))
+	fmt.Fprintf(&b, "\tvar e interface{} = %s\n", c11Pick(rt, []string{"nil", "1", `"s"`, "1.5", "S{A: 2}", "&S{A: 3}", "[]int{1}", "map[string]int{}", "id", "E{1}", "[2]int{1, 2}", "struct{}{}", "int8(3)", "pnil", "[1]interface{}{[]int{1}}"}, "e"))
 	b.WriteString("\tfn := id\n\tvar fnil func(int) int\n\tvar it I = p\n\tvar err error\n")
 	b.WriteString("\t_, _, _, _, _, _, _, _, _, _, _, _ = a, b, u, sh, f, g, h, s, t, i, j, k\n\t_, _, _, _, _, _, _, _, _, _, _, _, _ = xs, bs, arr, m, mnil, p, pnil, e, fn, fnil, it, err, T(0)\n")
-	wrap := rapid.SampledFrom([]string{"try", "try", "try", "bare"}).Draw(rt, "wrap")
+	wrap := c11Pick(rt, []string{"try", "try", "try", "bare"}, "wrap")
 	for _, op := range ops {
 		if wrap == "try" && !strings.HasPrefix(op, "r := recover()") {
 			fmt.Fprintf(&b, "\ttry(func() { %s })\n", op)
@@ -165,7 +177,7 @@ func c11GenFlow(rt *rapid.T) (string, []string) {
 	var note []string
 	for w := 0; w < nsw; w++ {
 		l := func(s string, c int) string { return fmt.Sprintf("w%d%s%d", w, s, c) }
-		shape := rapid.SampledFrom([]string{"switch", "switch", "switch", "switchinit", "forswitch", "typeswitch", "gotoloop", "labelnest", "rangeclosure", "deferloop"}).Draw(rt, l("shape", 0))
+		shape := c11Pick(rt, []string{"switch", "switch", "switch", "switchinit", "forswitch", "typeswitch", "gotoloop", "labelnest", "rangeclosure", "deferloop"}, l("shape", 0))
 		note = append(note, shape)
 		switch shape {
 		case "switch", "switchinit", "forswitch":
@@ -188,9 +200,9 @@ func c11GenFlow(rt *rapid.T) (string, []string) {
 				} else {
 					fmt.Fprintf(&b, "\tcase %d:\n", c)
 				}
-				nl := rapid.IntRange(0, 3).Draw(rt, l("nl", c))
+				nl := c11Uniform(rt, 4, l("nl", c))
 				for v := 0; v < nl; v++ {
-					init := rapid.SampledFrom([]string{"%d", "\"s%d\"", "[]int{%d}", "&x", "func() int { return %d }", "x + %d"}).Draw(rt, l(fmt.Sprintf("init%d_", v), c))
+					init := c11Pick(rt, []string{"%d", "\"s%d\"", "[]int{%d}", "&x", "func() int { return %d }", "x + %d"}, l(fmt.Sprintf("init%d_", v), c))
 					if strings.Contains(init, "%d") {
 						init = fmt.Sprintf(init, c*10+v)
 					}
@@ -203,18 +215,18 @@ func c11GenFlow(rt *rapid.T) (string, []string) {
 					b.WriteString("\t\ty++\n\t\tg := func() int { return y }\n\t\tprintln(g())\n")
 				}
 				fmt.Fprintf(&b, "\t\tprintln(\"c%d\", x)\n", c)
-				if rapid.IntRange(0, 5).Draw(rt, l("blk", c)) == 0 {
+				if c11Uniform(rt, 6, l("blk", c)) == 0 {
 					b.WriteString("\t\t{\n\t\t\tz := 1\n\t\t\t_ = z\n\t\t}\n")
 				}
-				if !last && rapid.IntRange(0, 2).Draw(rt, l("ft", c)) > 0 {
+				if !last && c11Uniform(rt, 3, l("ft", c)) > 0 {
 					b.WriteString("\t\tfallthrough\n")
-				} else if rapid.IntRange(0, 5).Draw(rt, l("brk", c)) == 0 {
+				} else if c11Uniform(rt, 6, l("brk", c)) == 0 {
 					b.WriteString("\t\tbreak\n")
 				}
 			}
 			b.WriteString("\t}\n\t}\n")
 		case "typeswitch":
-			v := rapid.SampledFrom([]string{"1", "\"s\"", "nil", "1.5", "[]int{1}", "func() {}", "struct{}{}", "&x0", "error(nil)"}).Draw(rt, l("v", 0))
+			v := c11Pick(rt, []string{"1", "\"s\"", "nil", "1.5", "[]int{1}", "func() {}", "struct{}{}", "&x0", "error(nil)"}, l("v", 0))
 			fmt.Fprintf(&b, "\t{\n\tx0 := 1\n\t_ = x0\n\tvar e interface{} = %s\n\tswitch v := e.(type) {\n", v)
 			for c, ty := range []string{"int", "string", "nil", "[]int, float64", "func()", "error"} {
 				if rapid.Bool().Draw(rt, l("has", c)) {
@@ -226,12 +238,12 @@ func c11GenFlow(rt *rapid.T) (string, []string) {
 			n := rapid.IntRange(1, 5).Draw(rt, l("n", 0))
 			fmt.Fprintf(&b, "\t{\n\ti := 0\n\tvar fs []func() int\nL%d:\n\tif i < %d {\n\t\tv := i\n\t\tfs = append(fs, func() int { v++; return v })\n\t\ti++\n\t\tgoto L%d\n\t}\n\tfor _, f := range fs {\n\t\tprintln(f())\n\t}\n\t}\n", w, n, w)
 		case "labelnest":
-			kind := rapid.SampledFrom([]string{"break A", "continue A", "break B", "continue B", "break", "goto C"}).Draw(rt, l("kind", 0))
+			kind := c11Pick(rt, []string{"break A", "continue A", "break B", "continue B", "break", "goto C"}, l("kind", 0))
 			fmt.Fprintf(&b, "\t{\n\tn := 0\nA%[1]d:\n\tfor i := 0; i < 3; i++ {\n\tB%[1]d:\n\t\tfor j := 0; j < 3; j++ {\n\t\t\tv := i * j\n\t\t\tdefer func() { _ = v }()\n\t\t\tswitch {\n\t\t\tcase v == 2:\n\t\t\t\tn++\n\t\t\t\t%[2]s\n\t\t\tcase v > 2:\n\t\t\t\tcontinue B%[1]d\n\t\t\t}\n\t\t\tn += 10\n\t\t\tif n > 1000 {\n\t\t\t\tbreak A%[1]d\n\t\t\t}\n\t\t}\n\t}\n%[3]s\tprintln(n)\n\t}\n", w,
 				strings.NewReplacer(" A", fmt.Sprintf(" A%d", w), " B", fmt.Sprintf(" B%d", w), " C", fmt.Sprintf(" C%d", w)).Replace(kind),
 				map[bool]string{true: fmt.Sprintf("C%d:\n", w), false: ""}[kind == "goto C"])
 		case "rangeclosure":
-			over := rapid.SampledFrom([]string{"[]int{1, 2, 3}", "[3]int{1, 2, 3}", "\"abc\"", "map[int]int{1: 1}", "3", "&[2]int{1, 2}"}).Draw(rt, l("over", 0))
+			over := c11Pick(rt, []string{"[]int{1, 2, 3}", "[3]int{1, 2, 3}", "\"abc\"", "map[int]int{1: 1}", "3", "&[2]int{1, 2}"}, l("over", 0))
 			fmt.Fprintf(&b, "\t{\n\tvar fs []func() int\n\tfor k, v := range %s {\n\t\tk2 := k\n\t\tfs = append(fs, func() int { k2++; _ = v; return int(k2) })\n\t\tif k2 > 100 {\n\t\t\tcontinue\n\t\t}\n\t}\n\tfor _, f := range fs {\n\t\tprintln(f())\n\t}\n\t}\n", over)
 			if over == "3" {
 				s := b.String()
@@ -240,7 +252,7 @@ func c11GenFlow(rt *rapid.T) (string, []string) {
 			}
 		case "deferloop":
 			n := rapid.IntRange(1, 4).Draw(rt, l("n", 0))
-			what := rapid.SampledFrom([]string{"recover()", "panic(i)", "println(i)", "func() { defer func() { recover() }(); panic(i) }()"}).Draw(rt, l("what", 0))
+			what := c11Pick(rt, []string{"recover()", "panic(i)", "println(i)", "func() { defer func() { recover() }(); panic(i) }()"}, l("what", 0))
 			fmt.Fprintf(&b, "\tfunc() {\n\t\tdefer func() { recover() }()\n\t\tfor i := 0; i < %d; i++ {\n\t\t\tdefer func() { %s }()\n\t\t}\n\t\tpanic(\"p\")\n\t}()\n", n, what)
 		}
 	}
@@ -259,13 +271,13 @@ func c11DrawGram(rt *rapid.T) c11Case {
 	quick := os.Getenv("VERIF_TIER") != "thorough"
 	if quick {
 		// the memory- and time-hungry families are thinned out in the quick tier
-		w = []int{10, 12, 2, 10, 8, 7, 3, 3, 3, 25, 17}
+		w = []int{10, 10, 2, 10, 6, 6, 3, 2, 2, 32, 17}
 	}
 	tot := 0
 	for _, x := range w {
 		tot += x
 	}
-	r := rapid.IntRange(0, tot-1).Draw(rt, "fam")
+	r := c11Uniform(rt, tot, "fam")
 	fi := 0
 	for r >= w[fi] {
 		r -= w[fi]
@@ -284,12 +296,12 @@ func c11DrawGram(rt *rapid.T) c11Case {
 	switch fam.Name {
 	case "recur", "alloc", "growth":
 		if quick {
-			c.Gas = rapid.SampledFrom([]int64{5_000_000, 10_000_000, 30_000_000}).Draw(rt, "gas")
+			c.Gas = c11Pick(rt, []int64{5_000_000, 10_000_000, 30_000_000}, "gas")
 		} else {
-			c.Gas = rapid.SampledFrom([]int64{10_000_000, 30_000_000, 100_000_000, 300_000_000}).Draw(rt, "gas")
+			c.Gas = c11Pick(rt, []int64{10_000_000, 30_000_000, 100_000_000, 300_000_000}, "gas")
 		}
 	default:
-		c.Gas = rapid.SampledFrom([]int64{3_000_000, 10_000_000, 30_000_000, 100_000_000}).Draw(rt, "gas")
+		c.Gas = c11Pick(rt, []int64{3_000_000, 10_000_000, 30_000_000, 100_000_000}, "gas")
 	}
 	return c
 }
